@@ -72,6 +72,30 @@ CHECKS = {
         "(round = floor(x+1/2)) and plays no role in the claim.",
         technique="contract-based deductive verification: ghost-state invariant over one update call, AST->VC, z3 (QF_NRA+UF)",
     ),
+    "C02": dict(
+        text=("The real _transform_grad closure is verified against a spec function written from the argument documentation "
+              "(graft step per type, lr coupling, norm transplant, coupled/decoupled weight decay, momentum with 1-beta1 iff "
+              "moving-average, Nesterov, learning rate) for all 672 discrete configurations with every numeric hyper-parameter, "
+              "dimension and tensor entry symbolic (pointwise at a Skolem index; each norm is shown to range over the right "
+              "tensor); _compute_stats/gram_weighted_update weights and contraction axes incl. the statistics interval; dense "
+              "preconditioner application along each axis for 3 preconditioner types as a polynomial identity at small sizes; "
+              "phase order of update_fn. preconditioned_grad and the roots enter through contracts. End-to-end float agreement "
+              "is not a proof obligation (bounded native reference in the thorough tier)."),
+        design="7/C02",
+        note=TB + " Norms are uninterpreted reductions with bound/zero facts; preconditioned_grad is an opaque tensor of the gradient's shape.",
+        technique="contract-based deductive verification: real closure vs spec function, AST->VC, z3 (case analysis + polynomial normalisation, QF_NRA)",
+    ),
+    "C05": dict(
+        text=("Grafting identities proved on the real code for all inputs: Distributed Shampoo _transform_grad with momentum and "
+              "weight decay off (7 graft types x lr coupling x schedule x skipped/not, pg opaque so every preconditioner "
+              "representation and shape is covered): update*(|pg|+eps) = -lr*pg*|graft| from the start step on, zero when pg is "
+              "zero, the graft step before it and (up to eps) always for skipped parameters; Tearfree graft/_graft_with/"
+              "_mask_skipped/_rmsprop/_sgd: out*|base| = base*|graft|, zero for zero base, graft step during warm-up and for "
+              "masked parameters, RMSProp accumulator closed form."),
+        design="7/C05",
+        note=TB + " Euclidean norm axioms: non-negative, |x_i| <= |x|, |x| = 0 => x = 0; homogeneity is cited, not used.",
+        technique="contract-based deductive verification: AST->VC symbolic execution of the real closures, z3",
+    ),
 }
 
 NA_REASON = "check not built yet (build in progress); the planned contract kernel is described in DESIGN.md section 7"
